@@ -10,6 +10,7 @@ The expectation is computed from the input alone, without any shared state excep
 scenario (whose draws are part of the input's meaning).
 -/
 import Pandora.Model.C20
+import Pandora.Model.C20Feed
 
 namespace Pandora.Spec.C20
 open Pandora.Model.C20 Pandora.Model.C20Conc
@@ -32,6 +33,19 @@ which connection) makes no difference to what the entry must produce -/
 def expectedJsonSched (tmo : Nat) (sched : List Nat) (es : List Entry) : List (Nat × Outcome) :=
   (sched.zip es).map fun (g, e) => (g, shootEntry tmo e)
 
+/-- what the provider must put on its sink: when no line stops it and the passes are bounded, `passes` times the
+per-line ammo of the file (every line decoded on its own, chosen cases only, an undecodable line as the empty invalid
+ammo), cut at the limit — `C20_feed_isolated` proves that the reading loop delivers exactly this; otherwise (a line
+stops the provider, or unlimited passes under a limit) what the model of the loop delivers (`fallback`) -/
+def specFeed (cfg : ProvCfg) (raws : List Raw) (fallback : List Entry) : List Entry :=
+  if cfg.passes != 0 && raws.all (rawOk cfg) then takeLim cfg.limit (passesItems cfg raws cfg.passes) else fallback
+
+def stopText : Stop → String
+  | .none => "ok"
+  | .decode => "decode"
+  | .scan => "scan"
+  | .noammo => "noammo"
+
 /-! ### scenarios -/
 
 /-- the call a step must make given its variables: templates of the DEFINITION rendered with these variables -/
@@ -47,12 +61,12 @@ def specStep (c : Cfg) (scn : String) (cd : CallDef) (vars : Vars Char) : Outcom
     | none => ({ calls := [], samples := [sampleText tag 400] }, false, none)
     | some vals =>
       let msg := canonMsg fs vals
-      let code := serverCode m msg
+      let code := serverCode m msg md
       let ret := if m == "Auth" && code == 200 then
           let login := ((stripPrefix? "s." (fieldVal msg "login")).getD "")
           some ("TOK" ++ login, login)
         else none
-      ({ calls := [callText m msg (mdText md) c.tmo], samples := [sampleText tag code] }, true, ret)
+      ({ calls := [callText m msg (mdText md) c.tmo], samples := [sampleText tag code] }, !(assertFails cd code), ret)
 
 /-- variables of a step and the iterator positions after its preprocessor: `u` is the next user of the iterator the
 call draws from (if the call has a preprocessor), `A`/`I` what the shot's auth step returned, `G` the global constant -/
@@ -182,6 +196,22 @@ def judgeTrace (exp : List (Nat × Outcome)) (impl : String) : String :=
           else if o.samples != sm then s!"fail:sample:shot {k} expected {String.intercalate "+" o.samples} got {String.intercalate "+" sm}"
           else go (k + 1) es ss
     go 0 exp shots
+
+/-- a grpc/json trace fired by hand: the shots, then — when the schedule asks for more ammo than the provider
+delivers — the observation that the provider has ended, and how (`perr=`) -/
+def judgeFeedTrace (exp : List (Nat × Outcome)) (outOfAmmo : Bool) (stop : String) (impl : String) : String :=
+  match crashKey impl with
+  | some k => "fail:" ++ k
+  | none =>
+    let shots := splitNE (kvGet impl "t") ";"
+    let implOut := shots.getLast? == some "out-of-ammo"
+    let core := if implOut then shots.dropLast else shots
+    let v := judgeTrace exp ("t=" ++ String.intercalate ";" core)
+    if v != "ok" then v
+    else if implOut && !outOfAmmo then s!"fail:count:the provider delivered only {core.length} ammo"
+    else if !implOut && outOfAmmo then "fail:count:the provider delivered more ammo than the file, the passes and the limit allow"
+    else if outOfAmmo && kvGet impl "perr" != stop then s!"fail:provider-end:expected {stop} got {kvGet impl "perr"}"
+    else "ok"
 
 /-! ### scenarios through the real engine (concurrent instances): membership + counts -/
 
